@@ -25,8 +25,10 @@ import (
 	"fmt"
 	"os"
 	"path/filepath"
+	"runtime"
 	"sort"
 	"strings"
+	"sync"
 	"time"
 
 	"github.com/btcsuite/btcd/btcec/v2"
@@ -84,6 +86,7 @@ type c04Op struct {
 	Addr     *c04AddrID `json:"addr,omitempty"`
 	WantTx   bool       `json:"wanttx,omitempty"` // wallet mode: record a transaction
 	Accounts uint32     `json:"accounts,omitempty"`
+	GivePriv bool       `json:"givepriv,omitempty"` // impxpub (replay only): hand the extended PRIVATE key to NewAccountWatchingOnly
 }
 
 type c04Input struct {
@@ -95,14 +98,6 @@ type c04Input struct {
 
 // ----------------------------------------------------------------- output
 
-type c04Field []interface{} // ["S", label, plen] | ["H"] | ["C", len]
-
-type c04Row struct {
-	Path []string      `json:"p"`
-	Key  []interface{} `json:"k"`
-	Val  []c04Field    `json:"v"`
-}
-
 type c04Hit struct {
 	Class string `json:"class"` // secret | passphrase | sensitive
 	Site  string `json:"site"`  // category:encoding
@@ -110,27 +105,35 @@ type c04Hit struct {
 }
 
 type c04OpObs struct {
-	OK      bool            `json:"ok"`
-	Err     string          `json:"err,omitempty"`
-	Commits int             `json:"commits"`
-	NRows   int             `json:"nrows"`
-	Changed []c04Row        `json:"changed,omitempty"`
-	Deleted [][]interface{} `json:"deleted,omitempty"`
-	Full    []c04Row        `json:"full,omitempty"`
-	HasFull bool            `json:"hasfull"`
-	Hits    []c04Hit        `json:"hits,omitempty"`
-	Needles int             `json:"needles"`
-	Image   int             `json:"image"`
-	Canary  bool            `json:"canary"` // the scanner found the planted public items
-	API     []string        `json:"api,omitempty"`
-	Residue *c04Residue     `json:"residue,omitempty"`
-	TxSeen  bool            `json:"txseen,omitempty"`
+	OK       bool        `json:"ok"`
+	Err      string      `json:"err,omitempty"`
+	Commits  int         `json:"commits"`
+	NRows    int         `json:"nrows"`           // rows in all namespaces
+	NChanged int         `json:"nchanged"`        // rows that changed, appeared or disappeared since the previous look
+	Scanned  bool        `json:"scanned"`         // the image was scanned after this call (also after failed calls)
+	Facts    []c04Fact   `json:"facts,omitempty"` // sealed fields (known slots) of the rows that changed
+	Full     []c04Fact   `json:"full,omitempty"`  // ... of all rows (create, conversion, last look)
+	HasFull  bool        `json:"hasfull"`
+	Extra    []c04Fact   `json:"extra,omitempty"` // sealed blobs found outside the known layouts
+	Opened   int         `json:"opened"`          // sealed fields opened and classified in this look
+	WO       bool        `json:"wo"`
+	Locked   bool        `json:"locked"`
+	Hits     []c04Hit    `json:"hits,omitempty"`
+	Needles  int         `json:"needles"`
+	Image    int         `json:"image"`
+	Canary   bool        `json:"canary"` // the scanner found the planted public items
+	API      []string    `json:"api,omitempty"`
+	APIRes   [][2]string `json:"apires,omitempty"` // (call, wo|locked|served|error) on the reopened watching-only manager
+	Residue  *c04Residue `json:"residue,omitempty"`
+	TxSeen   bool        `json:"txseen,omitempty"`
 }
 
 type c04Residue struct {
 	LiveSealedPrivate int      `json:"live"` // sealed fields of live rows that open under a remembered private/script key
 	LiveKinds         []string `json:"live_kinds,omitempty"`
-	FreeCiphertexts   int      `json:"free"` // remembered private ciphertexts still somewhere in the file image
+	FreeCiphertexts   int      `json:"free"`                 // remembered private ciphertexts still somewhere in the file image
+	FreeOpenable      int      `json:"free_openable"`        // ... that the remembered private keys open to a secret plaintext
+	FreeKinds         []string `json:"free_kinds,omitempty"` // slot=content of those
 	OldParams         bool     `json:"old_params"`
 	// BruteOpens: number of offsets of the image at which a blob of a
 	// plausible length opens under the remembered private crypto key or
@@ -147,6 +150,7 @@ type c04Case struct {
 	Tags   []string   `json:"tags"`
 	Site   string     `json:"site"`
 	Sites  []string   `json:"sites,omitempty"`
+	WallMS int64      `json:"wall_ms"`
 }
 
 // ---------------------------------------------------------------- scanner
@@ -189,6 +193,9 @@ func (s *scanner) addBytes(class, cat string, b []byte) {
 	s.add(class, cat+":hex", []byte(h))
 	s.add(class, cat+":HEX", []byte(strings.ToUpper(h)))
 	s.add(class, cat+":base58", []byte(base58.Encode(b)))
+	if class == "secret" || class == "passphrase" {
+		s.addB64(class, cat, b)
+	}
 }
 
 func (s *scanner) scan(img []byte) []c04Hit {
@@ -246,8 +253,11 @@ type run struct {
 	names     map[string][2]int
 	prev      map[string]walked
 	sealKeys  map[string]*snacl.CryptoKey // label -> key (current)
-	labelMemo map[string]c04Field
-	privBlobs map[string]string // remembered private ciphertexts -> kind
+	oldKeys   []oldKey                    // keys replaced by a passphrase change
+	openMemo  map[string]*openedMemo
+	discMemo  map[string]bool // values already searched exhaustively
+	kdfMemo   map[string]*snacl.CryptoKey
+	privBlobs map[string]string // remembered private ciphertexts -> slot
 	oldParams [][]byte          // remembered mpriv parameter blobs
 	commits   int
 	converted bool
@@ -290,7 +300,7 @@ func newRun(seed []byte) (*run, error) {
 	r := &run{dir: dir, path: filepath.Join(dir, "wallet.db"), seed: seed,
 		sc: newScanner(), canary: newScanner(), byHash: map[[32]byte]c04AddrID{},
 		names: map[string][2]int{}, prev: map[string]walked{},
-		sealKeys: map[string]*snacl.CryptoKey{}, labelMemo: map[string]c04Field{},
+		sealKeys: map[string]*snacl.CryptoKey{}, openMemo: map[string]*openedMemo{}, discMemo: map[string]bool{}, kdfMemo: map[string]*snacl.CryptoKey{},
 		privBlobs: map[string]string{}, tags: map[string]bool{}, oracle: map[string]bool{},
 		sites: map[string]bool{}, scopes: map[waddrmgr.KeyScope]waddrmgr.ScopeAddrSchema{},
 		accts: map[string]acctRec{}, impKeys: map[int]*btcec.PrivateKey{}}
@@ -316,16 +326,20 @@ func (r *run) close() {
 func (r *run) addPass(p []byte) {
 	r.sc.add("passphrase", "passphrase:raw", p)
 	r.sc.add("passphrase", "passphrase:hex", []byte(hex.EncodeToString(p)))
+	r.sc.add("passphrase", "passphrase:HEX", []byte(strings.ToUpper(hex.EncodeToString(p))))
+	r.sc.addB64("passphrase", "passphrase", p)
 }
 
 // extended key needles (independent of the manager: derived by the harness)
 func (r *run) addXprv(cat string, k *hdkeychain.ExtendedKey) {
 	str := k.String()
 	r.sc.add("secret", cat+":base58", []byte(str))
+	r.sc.addB64("secret", cat+"_string", []byte(str))
 	rawk := base58.Decode(str)
 	if len(rawk) >= 78 {
 		r.sc.add("secret", cat+":raw78", rawk[:78])
 		r.sc.add("secret", cat+":hex78", []byte(hex.EncodeToString(rawk[:78])))
+		r.sc.addB64("secret", cat+"_raw78", rawk[:78])
 	}
 	if pk, err := k.ECPrivKey(); err == nil {
 		r.sc.addBytes("secret", cat+"_key", pk.Serialize())
@@ -354,6 +368,7 @@ func (r *run) addPrivKey(cat string, pk *btcec.PrivateKey) {
 	for _, comp := range []bool{true, false} {
 		if w, err := btcutil.NewWIF(pk, c04Params, comp); err == nil {
 			r.sc.add("secret", cat+":wif", []byte(w.String()))
+			r.sc.addB64("secret", cat+"_wif", []byte(w.String()))
 		}
 	}
 }
@@ -382,6 +397,36 @@ func acctKey(s waddrmgr.KeyScope, a uint32) string {
 	return fmt.Sprintf("%d:%d:%d", s.Purpose, s.Coin, a)
 }
 
+// roundTrip is the key as the manager re-reads it from a stored string: the
+// legacy child derivation (DeriveNonStandard) of a key whose private scalar
+// has a leading zero byte differs between the in-memory key and the key
+// decoded from its string (btcd issue 172), and the manager uses both: the
+// first account of a scope comes from the in-memory coin-type key, later
+// accounts from the stored one; addresses from the stored account key.
+func roundTrip(k *hdkeychain.ExtendedKey) *hdkeychain.ExtendedKey {
+	if rt, err := hdkeychain.NewKeyFromString(k.String()); err == nil {
+		return rt
+	}
+	return k
+}
+
+// childVariants: every child the code could derive for (parent, idx); the
+// first one is what the legacy in-memory derivation gives.
+func childVariants(parent *hdkeychain.ExtendedKey, idx uint32) []*hdkeychain.ExtendedKey {
+	var out []*hdkeychain.ExtendedKey
+	seen := map[string]bool{}
+	add := func(k *hdkeychain.ExtendedKey, err error) {
+		if err == nil && !seen[k.String()] {
+			seen[k.String()] = true
+			out = append(out, k)
+		}
+	}
+	add(parent.DeriveNonStandard(idx))            // nolint:staticcheck
+	add(roundTrip(parent).DeriveNonStandard(idx)) // nolint:staticcheck
+	add(parent.Derive(idx))
+	return out
+}
+
 // deriveScope derives m/purpose'/coin' with the legacy rule the wallet uses.
 func (r *run) deriveScope(s waddrmgr.KeyScope) (*hdkeychain.ExtendedKey, error) {
 	p, err := r.root.DeriveNonStandard(s.Purpose + hdkeychain.HardenedKeyStart) // nolint:staticcheck
@@ -398,6 +443,12 @@ func (r *run) registerScope(s waddrmgr.KeyScope, schema waddrmgr.ScopeAddrSchema
 		return err
 	}
 	r.addXprv("cointype_xprv", ct)
+	// the other derivations a regression could use must not appear either
+	for _, p := range childVariants(r.root, s.Purpose+hdkeychain.HardenedKeyStart) {
+		for _, c := range childVariants(p, s.Coin+hdkeychain.HardenedKeyStart) {
+			r.addXprv("cointype_xprv", c)
+		}
+	}
 	return r.registerAccount(s, 0, ct)
 }
 
@@ -408,16 +459,26 @@ func (r *run) registerAccount(s waddrmgr.KeyScope, a uint32, ct *hdkeychain.Exte
 			return err
 		}
 	}
-	ak, err := ct.DeriveNonStandard(a + hdkeychain.HardenedKeyStart) // nolint:staticcheck
+	// account 0 is derived from the in-memory coin-type key (createManagerKeyScope),
+	// later accounts from the stored one (newAccount)
+	parent := ct
+	if a != 0 {
+		parent = roundTrip(ct)
+	}
+	ak, err := parent.DeriveNonStandard(a + hdkeychain.HardenedKeyStart) // nolint:staticcheck
 	if err != nil {
 		return err
 	}
 	r.addXprv("account_xprv", ak)
+	for _, v := range childVariants(ct, a+hdkeychain.HardenedKeyStart) {
+		r.addXprv("account_xprv", v)
+	}
 	pub, err := ak.Neuter()
 	if err != nil {
 		return err
 	}
-	r.accts[acctKey(s, a)] = acctRec{xpub: pub, xprv: ak}
+	// addresses are derived from the account key as stored
+	r.accts[acctKey(s, a)] = acctRec{xpub: roundTrip(pub), xprv: roundTrip(ak)}
 	return nil
 }
 
@@ -461,14 +522,27 @@ func hashOf(b []byte) []byte { h := sha256.Sum256(b); return h[:] }
 
 // ----------------------------------------------------------- seal labelling
 
+// refreshSealKeys derives, from the passphrases the harness holds and the
+// parameters stored in the database, every key of both chains.  A key that
+// is replaced (passphrase change) is kept as an old key.
 func (r *run) refreshSealKeys(ns walletdb.ReadBucket) {
 	main := ns.NestedReadBucket([]byte("main"))
 	if main == nil {
 		return
 	}
+	set := func(lab string, k *snacl.CryptoKey) {
+		if old := r.sealKeys[lab]; old != nil && *old != *k {
+			r.oldKeys = append(r.oldKeys, oldKey{"old_" + lab, old})
+		}
+		r.sealKeys[lab] = k
+	}
 	derive := func(params []byte, pass []byte) *snacl.CryptoKey {
 		if params == nil {
 			return nil
+		}
+		mk := string(params) + "\x00" + string(pass)
+		if k, ok := r.kdfMemo[mk]; ok {
+			return k
 		}
 		var sk snacl.SecretKey
 		if err := sk.Unmarshal(params); err != nil {
@@ -476,274 +550,83 @@ func (r *run) refreshSealKeys(ns walletdb.ReadBucket) {
 		}
 		p := append([]byte(nil), pass...)
 		if err := sk.DeriveKey(&p); err != nil {
+			r.kdfMemo[mk] = nil
 			return nil
 		}
+		r.kdfMemo[mk] = sk.Key
 		return sk.Key
 	}
-	if k := derive(main.Get([]byte("mpub")), r.pubPass); k != nil {
-		r.sealKeys["mpub"] = k
-		if pt, err := k.Decrypt(main.Get([]byte("cpub"))); err == nil && len(pt) == 32 {
+	crypto := func(master *snacl.CryptoKey, row, lab, cat string) {
+		if pt, err := master.Decrypt(main.Get([]byte(row))); err == nil && len(pt) == 32 {
 			var ck snacl.CryptoKey
 			copy(ck[:], pt)
-			r.sealKeys["cpub"] = &ck
-			r.sc.addBytes("keymat", "crypto_key_pub", pt)
+			set(lab, &ck)
+			r.sc.addBytes("keymat", cat, pt)
 		}
+	}
+	if k := derive(main.Get([]byte("mpub")), r.pubPass); k != nil {
+		set("mpub", k)
+		r.sc.addBytes("keymat", "master_key_pub", k[:])
+		crypto(k, "cpub", "cpub", "crypto_key_pub")
 	}
 	if p := main.Get([]byte("mpriv")); p != nil {
-		r.oldParams = append(r.oldParams, append([]byte(nil), p...))
+		if len(r.oldParams) == 0 || !bytes.Equal(r.oldParams[len(r.oldParams)-1], p) {
+			r.oldParams = append(r.oldParams, append([]byte(nil), p...))
+		}
 		if k := derive(p, r.privPass); k != nil {
-			r.sealKeys["mpriv"] = k
+			set("mpriv", k)
 			r.sc.addBytes("keymat", "master_key_priv", k[:])
-			if pt, err := k.Decrypt(main.Get([]byte("cpriv"))); err == nil && len(pt) == 32 {
-				var ck snacl.CryptoKey
-				copy(ck[:], pt)
-				r.sealKeys["cpriv"] = &ck
-				r.sc.addBytes("keymat", "crypto_key_priv", pt)
-			}
-			if pt, err := k.Decrypt(main.Get([]byte("cscript"))); err == nil && len(pt) == 32 {
-				var ck snacl.CryptoKey
-				copy(ck[:], pt)
-				r.sealKeys["cscript"] = &ck
-				r.sc.addBytes("keymat", "crypto_key_script", pt)
-			}
+			crypto(k, "cpriv", "cpriv", "crypto_key_priv")
+			crypto(k, "cscript", "cscript", "crypto_key_script")
 		}
-	}
-	if k := r.sealKeys["mpub"]; k != nil {
-		r.sc.addBytes("keymat", "master_key_pub", k[:])
 	}
 }
 
+// trial order: the crypto keys first (most fields), then the rest
 var sealOrder = []string{"cpub", "cpriv", "zero", "cscript", "mpub", "mpriv"}
-
-func (r *run) sealed(blob []byte, kind string) c04Field {
-	if len(blob) == 0 {
-		return nil
-	}
-	if f, ok := r.labelMemo[string(blob)]; ok {
-		return f
-	}
-	f := c04Field{"S", "none", len(blob) - 40}
-	for _, lab := range sealOrder {
-		k := r.sealKeys[lab]
-		if k == nil {
-			continue
-		}
-		if pt, err := k.Decrypt(blob); err == nil {
-			f = c04Field{"S", lab, len(pt)}
-			if lab == "zero" {
-				// A value sealed under the all-zero key is readable by
-				// anyone holding the file: the sealing is a fixed public
-				// encoding of the plaintext.  Secret scripts are sealed
-				// that way on the pinned tree (DESIGN section 6, S5: a
-				// recorded observation, not raised); any OTHER secret in
-				// such a field is a secret in the file.
-				for _, n := range r.sc.needles {
-					if n.class == "secret" && !strings.HasPrefix(n.site, "secret_script") && bytes.Equal(n.b, pt) {
-						r.viol("secret_in_file", n.site+"+all_zero_key")
-						break
-					}
-				}
-			}
-			if lab == "cpriv" || lab == "mpriv" || (lab == "zero" && kind == "secret_script") || lab == "cscript" {
-				r.privBlobs[string(blob)] = kind
-			}
-			break
-		}
-	}
-	r.labelMemo[string(blob)] = f
-	return f
-}
-
-func clearF(n int) c04Field { return c04Field{"C", n} }
 
 // --------------------------------------------------------------- row walk
 
 func u32(b []byte) uint32 { return binary.LittleEndian.Uint32(b) }
 
-func (r *run) parseRow(path []string, k, v []byte) c04Row {
-	row := c04Row{Path: path}
-	last := path[len(path)-1]
-	strKey := func() { row.Key = []interface{}{"s", string(k)} }
-	numKey := func(n uint32) { row.Key = []interface{}{"n", n} }
-	hashKey := func() {
-		var h [32]byte
-		if len(k) == 32 {
-			copy(h[:], k)
-			if id, ok := r.byHash[h]; ok {
-				row.Key = []interface{}{"a", id}
-				return
-			}
-		}
-		row.Key = []interface{}{"o", hex.EncodeToString(k)}
-	}
-	add := func(f c04Field) {
-		if f != nil {
-			row.Val = append(row.Val, f)
-		}
-	}
-	bad := func() { row.Val = []c04Field{{"S", "none", len(v)}} }
-	switch {
-	case last == "main":
-		strKey()
-		switch string(k) {
-		case "mpub", "mpriv":
-			if len(v) != 88 {
-				bad()
-				break
-			}
-			lab := string(k)
-			add(clearF(32))
-			if key := r.sealKeys[lab]; key != nil && bytes.Equal(hashOf(key[:]), v[32:64]) {
-				add(c04Field{"H"})
-			} else {
-				add(clearF(32))
-			}
-			add(clearF(24))
-		case "cpub", "cpriv", "cscript", "mhdpriv", "mhdpub":
-			kind := map[string]string{"cpub": "crypto_key_pub", "cpriv": "crypto_key_priv", "cscript": "crypto_key_script",
-				"mhdpriv": "master_xprv", "mhdpub": "master_xpub"}[string(k)]
-			add(r.sealed(v, kind))
-		default:
-			add(clearF(len(v)))
-		}
-	case last == "sync":
-		if len(k) == 4 {
-			numKey(binary.BigEndian.Uint32(k))
-		} else {
-			strKey()
-		}
-		add(clearF(len(v)))
-	case last == "schema":
-		row.Key = []interface{}{"c", u32(k[0:4]), u32(k[4:8])}
-		add(clearF(len(v)))
-	case len(path) == 2 && path[0] == "scope":
-		strKey()
-		if string(k) == "ctpub" || string(k) == "ctpriv" {
-			add(r.sealed(v, map[string]string{"ctpub": "cointype_xpub", "ctpriv": "cointype_xprv"}[string(k)]))
-		} else {
-			add(clearF(len(v)))
-		}
-	case last == "acct":
-		numKey(u32(k))
-		if len(v) < 5 {
-			bad()
-			break
-		}
-		raw := v[5:]
-		add(clearF(5))
-		switch v[0] {
-		case 0:
-			pl := int(u32(raw[0:4]))
-			add(clearF(4))
-			add(r.sealed(raw[4:4+pl], "account_xpub"))
-			off := 4 + pl
-			sl := int(u32(raw[off : off+4]))
-			add(clearF(4))
-			add(r.sealed(raw[off+4:off+4+sl], "account_xprv"))
-			add(clearF(len(raw) - (off + 4 + sl)))
-		case 1:
-			pl := int(u32(raw[0:4]))
-			add(clearF(4))
-			add(r.sealed(raw[4:4+pl], "imported_xpub"))
-			add(clearF(len(raw) - (4 + pl)))
-		default:
-			bad()
-		}
-	case last == "addr":
-		hashKey()
-		if len(v) < 18 {
-			bad()
-			break
-		}
-		raw := v[18:]
-		add(clearF(18))
-		two := func(off int, k1, k2 string) {
-			l1 := int(u32(raw[off : off+4]))
-			add(clearF(4))
-			add(r.sealed(raw[off+4:off+4+l1], k1))
-			o2 := off + 4 + l1
-			l2 := int(u32(raw[o2 : o2+4]))
-			add(clearF(4))
-			add(r.sealed(raw[o2+4:o2+4+l2], k2))
-			add(clearF(len(raw) - (o2 + 4 + l2)))
-		}
-		switch v[0] {
-		case 0:
-			add(clearF(len(raw)))
-		case 1:
-			two(0, "imported_pubkey", "imported_privkey")
-		case 2:
-			two(0, "script_hash", "secret_script")
-		case 3, 4:
-			add(clearF(2))
-			k2 := "public_script"
-			if raw[1] == 1 {
-				k2 = "secret_script"
-			}
-			two(2, "script_hash", k2)
-		default:
-			bad()
-		}
-	case last == "usedaddrs" || last == "addracctidx" || strings.HasPrefix(last, "acct:"):
-		hashKey()
-		add(clearF(len(v)))
-	case last == "acctnameidx":
-		if len(k) >= 4 {
-			if nm, ok := r.names[string(k[4:])]; ok && int(u32(k[0:4])) == len(k)-4 {
-				row.Key = []interface{}{"m", nm[0], nm[1]}
-			}
-		}
-		if row.Key == nil {
-			row.Key = []interface{}{"o", hex.EncodeToString(k)}
-		}
-		add(clearF(len(v)))
-	case last == "acctididx":
-		numKey(u32(k))
-		add(clearF(len(v)))
-	case last == "meta":
-		strKey()
-		add(clearF(len(v)))
-	default:
-		row.Key = []interface{}{"o", hex.EncodeToString(k)}
-		add(clearF(len(v)))
-	}
-	return row
-}
-
 type walked struct {
-	row c04Row
-	rid string
-	val []byte
+	ns   string
+	path []string
+	key  []byte
+	rid  string
+	val  []byte
 }
 
-func (r *run) walk(b walletdb.ReadBucket, path []string, out *[]walked) {
+func (r *run) walk(nsName string, b walletdb.ReadBucket, path []string, out *[]walked) {
 	_ = b.ForEach(func(k, v []byte) error {
 		if v == nil {
 			name := string(k)
-			switch {
-			case len(path) == 0 && name == "scope-schema":
-				name = "schema"
-			case len(path) == 1 && path[0] == "scope" && len(k) == 8:
-				name = fmt.Sprintf("%d:%d", u32(k[0:4]), u32(k[4:8]))
-			case len(path) == 3 && path[2] == "addracctidx" && len(k) == 4:
-				name = fmt.Sprintf("acct:%d", u32(k))
+			if nsName == string(c04NS) {
+				switch {
+				case len(path) == 0 && name == "scope-schema":
+					name = "schema"
+				case len(path) == 1 && path[0] == "scope" && len(k) == 8:
+					name = fmt.Sprintf("%d:%d", u32(k[0:4]), u32(k[4:8]))
+				case len(path) == 3 && path[2] == "addracctidx" && len(k) == 4:
+					name = fmt.Sprintf("acct:%d", u32(k))
+				}
 			}
 			np := append(append([]string{}, path...), name)
-			r.walk(b.NestedReadBucket(k), np, out)
-			return nil
-		}
-		if len(path) == 0 {
+			if nb := b.NestedReadBucket(k); nb != nil {
+				r.walk(nsName, nb, np, out)
+			}
 			return nil
 		}
 		p := append([]string{}, path...)
-		*out = append(*out, walked{row: r.parseRow(p, k, v),
-			rid: strings.Join(path, "/") + "\x00" + string(k), val: append([]byte(nil), v...)})
+		*out = append(*out, walked{ns: nsName, path: p, key: append([]byte(nil), k...),
+			rid: nsName + "\x01" + strings.Join(path, "/") + "\x00" + string(k), val: append([]byte(nil), v...)})
 		return nil
 	})
 }
 
-// snapshot reads the file image, scans it, walks the rows and diffs them
-// against the previous commit.
+// snapshot reads the file image, scans it, walks the rows of EVERY namespace,
+// opens every sealed blob of the rows that changed (all rows when full) and
+// diffs the rows against the previous look.
 func (r *run) snapshot(obs *c04OpObs, full bool) {
 	img, err := os.ReadFile(r.path)
 	if err != nil {
@@ -752,45 +635,80 @@ func (r *run) snapshot(obs *c04OpObs, full bool) {
 	}
 	var rows []walked
 	_ = walletdb.View(r.raw, func(tx walletdb.ReadTx) error {
-		ns := tx.ReadBucket(c04NS)
-		if ns == nil {
-			return nil
+		if ns := tx.ReadBucket(c04NS); ns != nil {
+			r.refreshSealKeys(ns)
 		}
-		r.refreshSealKeys(ns)
-		r.walk(ns, nil, &rows)
+		var names [][]byte
+		_ = tx.ForEachBucket(func(k []byte) error {
+			names = append(names, append([]byte(nil), k...))
+			return nil
+		})
+		for _, n := range names {
+			if b := tx.ReadBucket(n); b != nil {
+				r.walk(string(n), b, nil, &rows)
+			}
+		}
 		return nil
 	})
+	obs.Scanned = true
 	obs.Image = len(img)
 	obs.Needles = len(r.sc.needles)
 	obs.Hits = append(obs.Hits, r.sc.scan(img)...)
 	obs.Canary = len(r.canary.scan(img)) == len(r.canary.needles)
 	obs.NRows = len(rows)
 	cur := map[string]walked{}
-	obs.Changed, obs.Deleted, obs.Full = nil, nil, nil
+	obs.Facts, obs.Full, obs.Extra = nil, nil, nil
+	obs.NChanged = 0
 	for _, w := range rows {
 		cur[w.rid] = w
 		old, had := r.prev[w.rid]
-		if !had || !bytes.Equal(old.val, w.val) {
-			obs.Changed = append(obs.Changed, w.row)
+		changed := !had || !bytes.Equal(old.val, w.val)
+		if changed {
+			obs.NChanged++
 		}
-		if full {
-			obs.Full = append(obs.Full, w.row)
+		if !changed && !full {
+			continue
+		}
+		known, extra := r.rowFacts(w.ns, w.path, w.key, w.val)
+		for _, f := range known {
+			r.judge(f, true)
+			obs.Opened++
+			if changed {
+				obs.Facts = append(obs.Facts, f)
+			}
+			if full {
+				obs.Full = append(obs.Full, f)
+			}
+		}
+		for _, f := range extra {
+			r.judge(f, true)
+			obs.Opened++
+			obs.Extra = append(obs.Extra, f)
+			r.tag("sealed_blob_outside_known_layout")
 		}
 	}
-	for rid, old := range r.prev {
+	for rid := range r.prev {
 		if _, ok := cur[rid]; !ok {
-			obs.Deleted = append(obs.Deleted, []interface{}{old.row.Path, old.row.Key})
+			obs.NChanged++
 		}
 	}
-	sort.Slice(obs.Deleted, func(a, b int) bool { return fmt.Sprint(obs.Deleted[a]) < fmt.Sprint(obs.Deleted[b]) })
+	obs.Facts = dedupFacts(obs.Facts)
+	obs.Full = dedupFacts(obs.Full)
+	obs.Extra = dedupFacts(obs.Extra)
 	obs.HasFull = full
 	r.prev = cur
+	if r.mgr != nil {
+		obs.WO = r.mgr.WatchOnly()
+		obs.Locked = r.mgr.IsLocked()
+	}
 	if r.converted {
 		obs.Residue = r.residue(img, rows)
 	}
 }
 
 // residue: what private ciphertext is still around after a conversion.
+// Live rows are judged by rule B (judge); the rest of the image (pages bbolt
+// has freed but not overwritten) is measured here.
 func (r *run) residue(img []byte, rows []walked) *c04Residue {
 	res := &c04Residue{}
 	kinds := map[string]bool{}
@@ -808,13 +726,23 @@ func (r *run) residue(img []byte, rows []walked) *c04Residue {
 		res.LiveKinds = append(res.LiveKinds, k)
 	}
 	sort.Strings(res.LiveKinds)
-	for blob := range r.privBlobs {
+	free := map[string]bool{}
+	for blob, kind := range r.privBlobs {
 		if !live[blob] && bytes.Contains(img, []byte(blob)) {
 			res.FreeCiphertexts++
+			// can a holder of the OLD private passphrase still open it?
+			if o := r.openBlob([]byte(blob)); o != nil && secretContent[o.content] {
+				res.FreeOpenable++
+				free[kind+"="+o.content] = true
+			}
 		}
 	}
+	for k := range free {
+		res.FreeKinds = append(res.FreeKinds, k)
+	}
+	sort.Strings(res.FreeKinds)
 	for _, p := range r.oldParams {
-		if bytes.Contains(img, p[:64]) {
+		if len(p) >= 64 && bytes.Contains(img, p[:64]) {
 			res.OldParams = true
 		}
 	}
@@ -1110,7 +1038,11 @@ func (r *run) exec(op c04Op) error {
 		var acct uint32
 		err = r.update(func(ns walletdb.ReadWriteBucket) error {
 			var err error
-			acct, err = sm.NewAccountWatchingOnly(ns, name, apub, 0x01020304, schema)
+			k := apub
+			if op.GivePriv {
+				k = ak
+			}
+			acct, err = sm.NewAccountWatchingOnly(ns, name, k, 0x01020304, schema)
 			return err
 		})
 		if err != nil {
@@ -1370,16 +1302,43 @@ func (r *run) importScript(s waddrmgr.KeyScope, op c04Op) error {
 func (r *run) apiChecks(obs *c04OpObs) {
 	note := func(s string) { obs.API = append(obs.API, s) }
 	isWO := func(err error) bool { return waddrmgr.IsError(err, waddrmgr.ErrWatchingOnly) }
+	// answer class of one call, for the comparison with the model's [api]
+	worst := map[string]string{}
+	rank := map[string]int{"": 0, "wo": 1, "locked": 2, "error": 3, "served": 4}
+	answer := func(call string, served bool, err error) {
+		a := "error"
+		switch {
+		case served:
+			a = "served"
+		case isWO(err):
+			a = "wo"
+		case waddrmgr.IsError(err, waddrmgr.ErrLocked):
+			a = "locked"
+		}
+		if rank[a] > rank[worst[call]] {
+			worst[call] = a
+		}
+	}
+	defer func() {
+		var calls []string
+		for c := range worst {
+			calls = append(calls, c)
+		}
+		sort.Strings(calls)
+		for _, c := range calls {
+			obs.APIRes = append(obs.APIRes, [2]string{c, worst[c]})
+		}
+	}()
 	var privBlob []byte
 	for b, kind := range r.privBlobs {
-		if kind == "account_xprv" || kind == "imported_privkey" || kind == "cointype_xprv" || kind == "master_xprv" {
+		if kind == "acctpriv" || kind == "imppriv" || kind == "ctpriv" || kind == "mhdpriv" {
 			privBlob = []byte(b)
 			break
 		}
 	}
 	var scriptBlob []byte
 	for b, kind := range r.privBlobs {
-		if kind == "secret_script" {
+		if kind == "scrscript_secret" {
 			scriptBlob = []byte(b)
 			break
 		}
@@ -1401,6 +1360,7 @@ func (r *run) apiChecks(obs *c04OpObs) {
 			if err == nil || !isWO(err) || !r.mgr.IsLocked() {
 				r.viol("watching_only_unlocks", p.name)
 			}
+			answer("unlock", err == nil, err)
 		}
 		note(fmt.Sprintf("unlock_attempts=%d", len(passes)))
 		nPriv, nScr, nDerive := 0, 0, 0
@@ -1413,18 +1373,24 @@ func (r *run) apiChecks(obs *c04OpObs) {
 			switch a := ma.(type) {
 			case waddrmgr.ManagedPubKeyAddress:
 				nPriv++
-				if pk, err := a.PrivKey(); err == nil && pk != nil {
+				pk, err := a.PrivKey()
+				if err == nil && pk != nil {
 					r.viol("watching_only_returns_private", "PrivKey")
 				}
-				if w, err := a.ExportPrivKey(); err == nil && w != nil {
+				answer("privkey", err == nil && pk != nil, err)
+				w, err := a.ExportPrivKey()
+				if err == nil && w != nil {
 					r.viol("watching_only_returns_private", "ExportPrivKey")
 				}
+				answer("exportprivkey", err == nil && w != nil, err)
 			case waddrmgr.ManagedScriptAddress:
 				if rec.secret {
 					nScr++
-					if s, err := a.Script(); err == nil && len(s) > 0 {
+					s, err := a.Script()
+					if err == nil && len(s) > 0 {
 						r.viol("watching_only_returns_private", "Script")
 					}
+					answer("secretscript", err == nil && len(s) > 0, err)
 					if ta, ok := a.(waddrmgr.ManagedTaprootScriptAddress); ok {
 						if ts, err := ta.TaprootScript(); err == nil && ts != nil {
 							r.viol("watching_only_returns_private", "TaprootScript")
@@ -1452,15 +1418,19 @@ func (r *run) apiChecks(obs *c04OpObs) {
 		}
 		note(fmt.Sprintf("addresses=%d privkey_probes=%d secret_script_probes=%d derive_probes=%d", len(r.addrs), nPriv, nScr, nDerive))
 		if privBlob != nil {
-			if pt, err := r.mgr.Decrypt(waddrmgr.CKTPrivate, privBlob); err == nil && len(pt) > 0 {
+			pt, err := r.mgr.Decrypt(waddrmgr.CKTPrivate, privBlob)
+			if err == nil && len(pt) > 0 {
 				r.viol("watching_only_returns_private", "Decrypt(CKTPrivate)")
 			}
+			answer("decryptprivate", err == nil && len(pt) > 0, err)
 			note("decrypt_private_probe")
 		}
 		if scriptBlob != nil {
-			if pt, err := r.mgr.Decrypt(waddrmgr.CKTScript, scriptBlob); err == nil && len(pt) > 0 {
+			pt, err := r.mgr.Decrypt(waddrmgr.CKTScript, scriptBlob)
+			if err == nil && len(pt) > 0 {
 				r.viol("watching_only_returns_private", "Decrypt(CKTScript)")
 			}
+			answer("decryptscript", err == nil && len(pt) > 0, err)
 			note("decrypt_script_probe")
 		}
 		return nil
@@ -1473,8 +1443,10 @@ func (r *run) apiChecks(obs *c04OpObs) {
 		if err != nil {
 			continue
 		}
+		var callErr error
 		err = r.update(func(ns walletdb.ReadWriteBucket) error {
 			if _, err := sm.NewAccount(ns, "wo-probe"); err != nil {
+				callErr = err
 				return errRefused
 			}
 			return nil
@@ -1482,10 +1454,13 @@ func (r *run) apiChecks(obs *c04OpObs) {
 		if err == nil {
 			r.viol("watching_only_returns_private", "NewAccount")
 		}
+		answer("newaccount", err == nil, callErr)
 		break
 	}
+	var chErr error
 	err := r.update(func(ns walletdb.ReadWriteBucket) error {
 		if err := r.mgr.ChangePassphrase(ns, r.privPass, []byte("another-private-pass"), true, &waddrmgr.FastScryptOptions); err != nil {
+			chErr = err
 			return errRefused
 		}
 		return nil
@@ -1493,6 +1468,7 @@ func (r *run) apiChecks(obs *c04OpObs) {
 	if err == nil {
 		r.viol("watching_only_unlocks", "ChangePassphrase(private)")
 	}
+	answer("changeprivatepassphrase", err == nil, chErr)
 	note("new_account_probe change_private_passphrase_probe")
 }
 
@@ -1550,13 +1526,22 @@ func runMgr(in c04Input) (c04Case, error) {
 			}
 		}
 		obs.Commits = r.commits - before
-		if obs.OK {
-			full := op.K == "create" || op.K == "convert" || i == len(in.Ops)-1
+		if obs.OK || r.root != nil {
+			// after a committed call AND after a failed (rolled back) one
+			full := obs.OK && (op.K == "create" || op.K == "convert" || i == len(in.Ops)-1)
 			r.snapshot(&obs, full)
 			r.classify(&obs, false)
 			if !obs.Canary {
 				r.tag("canary_missed")
 			}
+			if !obs.OK {
+				r.tag("failed_call_scanned")
+				if obs.NChanged != 0 || obs.Commits != 0 {
+					r.tag("failed_call_changed_database:" + op.K)
+				}
+			}
+		}
+		if obs.OK {
 			if op.K == "reopen" && r.mgr != nil && r.mgr.WatchOnly() {
 				r.apiChecks(&obs)
 				r.tag("api_checked")
@@ -1591,6 +1576,12 @@ func runMgr(in c04Input) (c04Case, error) {
 				}
 				if o.Residue.FreeCiphertexts > 0 {
 					r.tag("residue:old_ciphertext_in_free_pages")
+				}
+				if o.Residue.FreeOpenable > 0 {
+					r.tag("residue:old_ciphertext_in_free_pages_opens_with_old_private_passphrase")
+					for _, k := range o.Residue.FreeKinds {
+						r.tag("residue_free:" + k)
+					}
 				}
 				if o.Residue.OldParams {
 					r.tag("residue:old_master_params_in_free_pages")
@@ -1859,23 +1850,67 @@ func main() {
 			probeMain()
 			return nil
 		}
+		// inputs are generated sequentially from the seed; the runs are
+		// independent (own directory, own database) and executed by a pool
+		// of workers; the cases are emitted in input order
+		type job struct {
+			in   c04Input
+			tags []string
+		}
+		var jobs []job
 		runOne := func(in c04Input, tags ...string) error {
-			var cs c04Case
-			var err error
-			if in.Mode == "wallet" {
-				cs, err = runWallet(in)
-			} else {
-				cs, err = runMgr(in)
+			jobs = append(jobs, job{in, tags})
+			return nil
+		}
+		flush := func() error {
+			type res struct {
+				cs  c04Case
+				err error
 			}
-			if err != nil {
-				return err
+			results := make([]res, len(jobs))
+			workers := runtime.NumCPU()
+			if workers > 8 {
+				workers = 8
 			}
-			cs.Tags = append(cs.Tags, tags...)
-			out.Emit(cs)
+			if workers < 1 {
+				workers = 1
+			}
+			var wg sync.WaitGroup
+			next := make(chan int)
+			for w := 0; w < workers; w++ {
+				wg.Add(1)
+				go func() {
+					defer wg.Done()
+					for i := range next {
+						var cs c04Case
+						var err error
+						t0 := time.Now()
+						if jobs[i].in.Mode == "wallet" {
+							cs, err = runWallet(jobs[i].in)
+						} else {
+							cs, err = runMgr(jobs[i].in)
+						}
+						cs.Tags = append(cs.Tags, jobs[i].tags...)
+						cs.WallMS = time.Since(t0).Milliseconds()
+						results[i] = res{cs, err}
+					}
+				}()
+			}
+			for i := range jobs {
+				next <- i
+			}
+			close(next)
+			wg.Wait()
+			for _, r := range results {
+				if r.err != nil {
+					return r.err
+				}
+				out.Emit(r.cs)
+			}
 			return nil
 		}
 		if c.Replay != "" {
-			return core.ReadReplay(c.Replay, func(raw json.RawMessage) error {
+			err := core.ReadReplay(c.Replay, func(raw json.RawMessage) error {
 				var cs struct {
 					In c04Input `json:"in"`
 				}
@@ -1884,6 +1919,10 @@ func main() {
 				}
 				return runOne(cs.In, "replay")
 			})
+			if err != nil {
+				return err
+			}
+			return flush()
 		}
 		r := gen.New(c.Seed, 4)
 		if err := runOne(c04Systematic(r.Bytes(32), true), "systematic"); err != nil {
@@ -1892,9 +1931,9 @@ func main() {
 		if err := runOne(c04Systematic(r.Bytes(32), false), "systematic"); err != nil {
 			return err
 		}
-		nWallet := 3
+		nWallet := 9
 		if c.Tier == "thorough" {
-			nWallet = 12
+			nWallet = 36
 		}
 		for i := 0; i < nWallet; i++ {
 			if err := runOne(c04WalletGen(r, i), "wallet_level"); err != nil {
@@ -1908,7 +1947,6 @@ func main() {
 				return err
 			}
 		}
-		return nil
+		return flush()
 	})
 }
-
